@@ -162,6 +162,38 @@ def run(chk):
         for sw, (da, db, ja, jb) in enumerate(((d1, d2, j1, j2), (d2, d1, j2, j1))):
             expect({"op": "pc_joint", "rows": ja, "rows2": jb, "sep": "_"}, lambda da=da, db=db: float(st.pc_joint(da, ["i", "f"], db)),
                    "pc_joint2[int-beside-float, one table with a missing cell]", {"rows": ja, "rows2": jb}, True)
+    # a LARGE table (1000+ rows) and a small one cut from ONE parent (an int column beside a float column; text columns): the text
+    # a row is keyed by depends on the row alone, not on how many rows its table has
+    for it_big in range(2 if not thorough else 6):
+        n = 1003 + rng.randint(0, 60)
+        if it_big % 2 == 0:
+            parent = pd.DataFrame({"i": [rng.choice([0, 1, 2]) for _ in range(n)], "f": [rng.choice([0.5, 1.5]) for _ in range(n)]})
+            tocell = lambda v: repr(float(v))  # noqa: E731
+        else:
+            parent = pd.DataFrame({"i": [rng.choice(["A", "B", "AB"]) for _ in range(n)], "f": [rng.choice(["", "B", "C"]) for _ in range(n)]})
+            tocell = str
+        ks = rng.randint(3, 9)
+        small, big = parent.iloc[:ks], parent.iloc[ks:]
+        js = [[tocell(x), tocell(y)] for x, y in zip(small["i"].tolist(), small["f"].tolist())]
+        jb = [[tocell(x), tocell(y)] for x, y in zip(big["i"].tolist(), big["f"].tolist())]
+        expect({"op": "pc_table", "rows": jb, "rows2": js}, lambda a=big, b=small: float(st.pc(a, b)), "pc2[table, 1000+ rows against a few]", {"rows2": js, "n_rows": len(jb)}, True)
+        expect({"op": "pc_table", "rows": js, "rows2": jb}, lambda a=small, b=big: float(st.pc(a, b)), "pc2[table, a few rows against 1000+]", {"rows": js, "n_rows2": len(jb)}, True)
+        expect({"op": "pc_joint", "rows": jb, "rows2": js, "sep": "_"}, lambda a=big, b=small: float(st.pc_joint(a, ["i", "f"], b)),
+               "pc_joint2[1000+ rows against a few]", {"rows2": js, "n_rows": len(jb)}, True)
+        expect({"op": "pc_table", "rows": jb}, lambda a=big: float(st.pc(a)), "pc[table, 1000+ rows]", {"n_rows": len(jb)}, True)
+    # very unequal sample sizes (the larger sample holds elements the smaller one lacks), and samples whose elements are tuples
+    for _ in range(10 if not thorough else 60):
+        a = [rng.choice("ABCDEFG") for _ in range(rng.randint(40, 400))]
+        b = [rng.choice("ABX") for _ in range(rng.randint(1, 4))]
+        for x, y in ((a, b), (b, a), (np.array(a), np.array(b)), (pd.Series(b), pd.Series(a))):
+            expect({"op": "pc2", "as": list(map(str, x)), "bs": list(map(str, y))}, lambda x=x, y=y: float(st.pc(x, y)), "pc2[very unequal sizes]",
+                   {"a": list(map(str, x))[:50], "b": list(map(str, y))[:50]}, True)
+        t = [(rng.choice(["CAS", "CAT"]), rng.choice(["x", "y"])) for _ in range(rng.randint(2, 9))]
+        u = [(rng.choice(["CAS", "CAT"]), rng.choice(["x", "z"])) for _ in range(rng.randint(1, 6))]
+        expect({"op": "pc1", "xs": [repr(v) for v in t]}, lambda t=t: float(st.pc(pd.Series(t))), "pc[series-of-tuples]", {"sample": [list(v) for v in t]},
+               len(set(t)) < len(t))
+        expect({"op": "pc2", "as": [repr(v) for v in t], "bs": [repr(v) for v in u]}, lambda t=t, u=u: float(st.pc(pd.Series(t), pd.Series(u))),
+               "pc2[series-of-tuples]", {"a": [list(v) for v in t], "b": [list(v) for v in u]}, True)
     # numeric cells that need every digit: close floats, large integers beside a float column, an integer column
     # that pandas upcasts to float because of a missing value
     for _ in range(12 if not thorough else 120):
